@@ -103,6 +103,13 @@ def handle (d : DS) : List String → Option (DS × String)
       let L ← parseNat L; let C ← parseNat C; let h ← parseInt h
       let before ← parseRecs before; let burned ← parseNat burned; let acc ← parseBool acc
       some (d, toString (removeRealOK (getReqs d.reqs key) L C h before burned acc))
+  | ["chk", "c02.units", _tag, _pool, pu, provs] => do
+      let pu ← parseNat pu
+      let ps ← if provs = "-" then some [] else (provs.splitOn ",").mapM parseNat
+      some (d, toString (poolUnitsOK pu ps))
+  | ["chk", "c02.burn", _tag, before, w, after, acc] => do
+      let before ← parseNat before; let w ← parseNat w; let after ← parseNat after; let acc ← parseBool acc
+      some (d, toString (burnOK before w after acc))
   | ["chk", "c15.consume", _tag, L, before, after, burned, acc] => do
       let L ← parseNat L
       let before ← parseRecs before; let after ← parseRecs after
